@@ -32,6 +32,8 @@ pub enum Payload {
     Lzma2 { chunks: Vec<Chunk>, raw_api: bool },
     /// converse: stream with end marker (no size) followed by bytes must be rejected
     LzmaMarker { props: Props, dict: u32, ops: Vec<Op> },
+    /// converse: the same under ReadHeaderButUseProvided(None) with an arbitrary (ignored) size field
+    LzmaMarkerIgnoredField { props: Props, dict: u32, ops: Vec<Op>, field: u64 },
     /// converse: .xz followed by bytes must be rejected
     Xz { file: XzCase },
 }
@@ -79,10 +81,11 @@ impl Property for C11 {
     fn strategy(&self, tier: Tier) -> BoxedStrategy<Self::Abs> {
         let n = tier.pick(30, 60);
         let pl = prop_oneof![
-            6 => (0u8..5, props_any(), dict_header(), dict_raw(), abs_program(n, 20), prop::sample::select(vec![0u64, 1, u64::MAX, 1 << 40]))
+            12 => (0u8..5, props_any(), dict_header(), dict_raw(), abs_program(n, 20), prop::sample::select(vec![0u64, 1, u64::MAX, 1 << 40]))
                 .prop_map(|(which, props, dict_h, dict_r, prog, field)| AbsPayload::Lzma { which, props, dict_h, dict_r, prog, field }),
-            4 => (abs_chunks(4, 12, 10, false), any::<bool>()).prop_map(|(chunks, raw_api)| AbsPayload::Lzma2 { chunks, raw_api }),
-            2 => abs_xz(2, 2, 8, 2000).prop_map(AbsPayload::Xz),
+            8 => (abs_chunks(4, 12, 10, false), any::<bool>()).prop_map(|(chunks, raw_api)| AbsPayload::Lzma2 { chunks, raw_api }),
+            1 => (abs_chunks(2, 12, 10, true), any::<bool>()).prop_map(|(chunks, raw_api)| AbsPayload::Lzma2 { chunks, raw_api }),
+            4 => abs_xz(2, 2, 8, 2000).prop_map(AbsPayload::Xz),
         ];
         let trail = prop_oneof![
             2 => Just(AbsTrail::None),
@@ -105,11 +108,20 @@ impl Property for C11 {
                     2 => Payload::LzmaH13Provided { props: *props, dict, ops, field: *field },
                     3 if *field == 1 => Payload::LzmaRawReused { props: *props, dict, ops, init: (*dict_h as u64) % 50 },
                     3 => Payload::LzmaRaw { props: *props, dict, ops },
+                    _ if *field != 0 => {
+                        let l: u64 = ops.iter().map(|o| crate::gen::program::op_out_len(o) as u64).sum();
+                        let f = match *field {
+                            1 => l,
+                            u64::MAX => l.saturating_sub(1),
+                            _ => (*dict_r as u64) % 7,
+                        };
+                        Payload::LzmaMarkerIgnoredField { props: *props, dict, ops, field: f }
+                    }
                     _ => Payload::LzmaMarker { props: *props, dict, ops },
                 }
             }
             AbsPayload::Lzma2 { chunks, raw_api } => Payload::Lzma2 {
-                chunks: concretize_chunks(chunks, L2Cfg { max_total: 20_000, max_chunk_ops: 2000 }),
+                chunks: concretize_chunks(chunks, L2Cfg { max_total: 3 << 20, max_chunk_ops: 90_000 }),
                 raw_api: *raw_api,
             },
             AbsPayload::Xz(x) => Payload::Xz { file: concretize_xz(x) },
@@ -181,6 +193,7 @@ impl Property for C11 {
             Payload::LzmaRawReused { .. } => "LzmaRawReused",
             Payload::Lzma2 { .. } => "Lzma2",
             Payload::LzmaMarker { .. } => "LzmaMarker",
+            Payload::LzmaMarkerIgnoredField { .. } => "LzmaMarkerIgnoredField",
             Payload::Xz { .. } => "Xz",
         };
         st.class(match &c.reader {
@@ -202,7 +215,7 @@ impl Property for C11 {
                 json!({"payload": describe(&c.payload), "payload_len": plen, "trailing": hex_prefix(&c.trailing, 16), "reader": format!("{:?}", c.reader)})
             });
         }
-        if expected.is_empty() && !matches!(c.payload, Payload::Xz { .. } | Payload::LzmaMarker { .. }) {
+        if expected.is_empty() && !matches!(c.payload, Payload::Xz { .. } | Payload::LzmaMarker { .. } | Payload::LzmaMarkerIgnoredField { .. }) {
             st.class("payload with size 0");
         }
         let l = expected.len() as u64;
@@ -225,6 +238,9 @@ impl Property for C11 {
                 }
             }
             Payload::LzmaMarker { .. } => sut::lzma_decompress(&input, &Opts::with(USize::ReadFromHeader), &c.reader, &io),
+            Payload::LzmaMarkerIgnoredField { .. } => {
+                sut::lzma_decompress(&input, &Opts::with(USize::ReadHeaderButUseProvided(None)), &c.reader, &io)
+            }
             Payload::Xz { .. } => sut::xz_decompress(&input, &c.reader, &io),
         };
         let what = format!(
@@ -236,7 +252,7 @@ impl Property for C11 {
             c.reader
         );
         match &c.payload {
-            Payload::LzmaMarker { .. } | Payload::Xz { .. } => {
+            Payload::LzmaMarker { .. } | Payload::LzmaMarkerIgnoredField { .. } | Payload::Xz { .. } => {
                 let converse = if matches!(c.payload, Payload::Xz { .. }) { "converse:Xz" } else { "converse:LzmaMarker" };
                 if c.trailing.is_empty() {
                     st.class(&format!("{}+nothing", converse));
@@ -283,6 +299,7 @@ fn describe(p: &Payload) -> String {
         | Payload::LzmaRaw { props, dict, ops }
         | Payload::LzmaRawReused { props, dict, ops, .. }
         | Payload::LzmaMarker { props, dict, ops }
+        | Payload::LzmaMarkerIgnoredField { props, dict, ops, .. }
         | Payload::LzmaH13Provided { props, dict, ops, .. } => {
             format!("lc{}lp{}pb{} dict={} ops=[{}]", props.lc, props.lp, props.pb, dict, program_text(ops, 12))
         }
@@ -299,16 +316,17 @@ fn build(p: &Payload) -> Result<(Vec<u8>, Vec<u8>, usize), String> {
         | Payload::LzmaRaw { props, dict, ops }
         | Payload::LzmaRawReused { props, dict, ops, .. }
         | Payload::LzmaMarker { props, dict, ops }
+        | Payload::LzmaMarkerIgnoredField { props, dict, ops, .. }
         | Payload::LzmaH13Provided { props, dict, ops, .. } => {
             let raw = matches!(p, Payload::LzmaRaw { .. } | Payload::LzmaRawReused { .. });
             let eff = if raw { *dict as u64 } else { (*dict as u64).max(4096) };
             let expected = interpret(ops, eff).map_err(|e| format!("{:?}", e))?;
-            let marker = matches!(p, Payload::LzmaMarker { .. });
+            let marker = matches!(p, Payload::LzmaMarker { .. } | Payload::LzmaMarkerIgnoredField { .. });
             let enc = encode_lzma(*props, ops, if marker { Some(2) } else { None });
             let mut f = match p {
                 Payload::LzmaH13 { .. } => lzma_header(*props, *dict, Some(expected.len() as u64)),
                 Payload::LzmaMarker { .. } => lzma_header(*props, *dict, None),
-                Payload::LzmaH13Provided { field, .. } => {
+                Payload::LzmaH13Provided { field, .. } | Payload::LzmaMarkerIgnoredField { field, .. } => {
                     let mut h = lzma_header(*props, *dict, None);
                     h[5..13].copy_from_slice(&field.to_le_bytes());
                     h
